@@ -20,6 +20,7 @@ SigExact(S, ent) ==
         ELSE IF ~RunsCover(ent.runs, ent.first, ent.len)
                 \/ \E i \in 1..Len(ent.runs) : ~RunOk(g, [p |-> ent.runs[i].p - g.first, n |-> ent.runs[i].n, c |-> ent.runs[i].c])
              THEN "altered samples returned as valid"
+        ELSE IF \E i \in 1..Len(ent.st) : ~StatsAgree(ent.st[i]) THEN "altered statistics returned as valid"
         ELSE ""
 
 DefsVerdict(S, d) ==
